@@ -303,6 +303,9 @@ static void worker_loop(Worker* w)
         fputs("zix", f); // stays in the stdio buffer
       }
       break;
+    case 'x':
+      unlink(lock_path); // the name goes; every open handle still refers to the same file and lock
+      break;
     case 'o':
       if (!f) {
         f = fopen(lock_path, open_mode(w->mode));
@@ -444,6 +447,15 @@ static void case_lockstep(char** tok)
   flags[0] = 0;
   memset(shared, 0, sizeof(*shared));
   fflush(stdout);
+  // the lock file exists at the start of every case (a step 'x' of an earlier case may have removed it), and the
+  // driver's own probe handle is opened now: it still names the file the workers lock after an unlink
+  {
+    const int fd = open(lock_path, O_CREAT | O_RDWR, 0600);
+    if (fd >= 0) {
+      close(fd);
+    }
+  }
+  FILE* const probe = fopen(lock_path, "r+");
   for (int i = 0; i < n; ++i) {
     memset(&w[i], 0, sizeof(Worker));
     w[i].kind = tok[1][2 * i];
@@ -551,7 +563,6 @@ static void case_lockstep(char** tok)
   }
   // is the lock free now?  (an independent description of the driver itself asks)
   int   lock_free = -1;
-  FILE* probe     = fopen(lock_path, "r+");
   if (probe) {
     lock_free = !__real_flock(fileno(probe), LOCK_EX | LOCK_NB);
     if (lock_free) {
